@@ -102,6 +102,16 @@ CLAIMED = {
         technique="symbolic execution of the real join verb/Cache/compile functions on bounded-width tables with symbolic names + z3 string theory (inductive step)",
         note="trusted: pdtv + z3 (strings); LazyFrame / SQL structural models; A-uuid; bound: widths 1-2 per side",
     ),
+    "C07": dict(
+        category="other",
+        text="Inductive-step verification conditions with two pre-state tables (bounded width, symbolic names; hidden columns whose names may equal visible names of either side): the real "
+        "union verb, Cache.update and the real Polars / SQL compile_ast are executed symbolically; z3 discharges the refusal rules (different visible name sets, grouped side -> ValueError; "
+        "different backends -> TypeError; nothing else refused), result names/order = left, alignment of every result column with the right VISIBLE column of the same name (not a hidden "
+        "one, not by position), UNION vs UNION ALL / pl.union(distinct) selection, and that hidden columns leave the scope. Engine union semantics are library axioms. Bounded in width.",
+        design_ref="DESIGN.md §5.7",
+        technique="symbolic execution of the real union verb/Cache/compile functions on bounded-width tables with symbolic names + z3 (inductive step)",
+        note="trusted: pdtv + z3; LazyFrame / SQL structural models; bound: widths <= 3 per side; column types fixed (type-compatibility refusal is covered by C13's lca_type enumeration)",
+    ),
 }
 
 NOT_YET = "check not built yet (engine under construction); will be claimed as soon as its obligations discharge"
